@@ -1,0 +1,140 @@
+//go:build verif
+
+// Contracts for package binaryheap (comment-only; read by /verif/engine, never compiled into the package).
+
+package binaryheap
+
+//@ -- strict weak order on the three-way comparator c (stated by the properties as the comparator's obligation)
+//@ pred SWO(c, w) := (forall x like w, y like w :: (c(x, y) < 0 <==> c(y, x) > 0))
+//@     && (forall x like w, y like w, z like w :: c(x, y) <= 0 && c(y, z) <= 0 ==> c(x, z) <= 0)
+//@ pred L(h) := arraylist.Seq(h.list)
+//@ pred N(h) := len(arraylist.Seq(h.list))
+//@ pred Le(h, i, j) := h.Comparator(L(h)[i], L(h)[j]) <= 0
+//@ -- every parent->child edge whose parent index is >= lo is ordered
+//@ pred OrdFrom(h, lo) := forall j :: 1 <= j && j < N(h) && lo <= fdiv(j-1, 2) ==> Le(h, fdiv(j-1, 2), j)
+//@ pred Shape(h) := h != nil && h.list != nil && arraylist.Inv(h.list) && h.Comparator != nil && SWO(h.Comparator, elemof(h.list.elements))
+//@ pred Inv(h) := Shape(h) && OrdFrom(h, 0)
+//@ -- p/q are mutually inverse permutations of 0..n-1
+//@ pred IsPerm(p, q, n) := forall k :: 0 <= k && k < n ==> 0 <= p[k] && p[k] < n && q[p[k]] == k && 0 <= q[k] && q[k] < n && p[q[k]] == k
+//@ -- the content is the old content rearranged by p: nothing lost, duplicated or altered, even among ties (C06)
+//@ pred Permuted(h, p, q) := N(h) == old(N(h)) && IsPerm(p, q, N(h)) && (forall k :: 0 <= k && k < N(h) ==> L(h)[k] == old(L(h))[p[k]])
+//@ pred Config(h) := h.list == old(h.list) && h.Comparator == old(h.Comparator)
+
+//@ func NewWith
+//@   requires comparator != nil && SWO(comparator, argof(comparator, 0))
+//@   modifies nothing
+//@   ensures [C06 C15 C17] fresh(result) && Inv(result) && N(result) == 0 && result.Comparator == comparator && fresh(result.list)
+
+//@ func Heap.bubbleDownIndex
+//@   requires Shape(heap) && index >= 0 && OrdFrom(heap, index + 1)
+//@   modifies elems(heap.list.elements)
+//@   ghostvar perm := idmap
+//@   ghostvar pinv := idmap
+//@   at after Swap#1: perm := swap(perm, arg1, arg2)
+//@   at after Swap#1: pinv := store(store(pinv, perm[arg1], arg1), perm[arg2], arg2)
+//@   ghostresult perm mapint
+//@   ghostresult pinv mapint
+//@   ensures [C06] Shape(heap) && Config(heap) && OrdFrom(heap, index) && Permuted(heap, perm, pinv)
+//@   ensures [C06] forall k :: 0 <= k && k < index ==> perm[k] == k && pinv[k] == k
+//@   loop 1:
+//@     invariant Shape(heap) && Config(heap) && size == N(heap) && index0 <= index && Permuted(heap, perm, pinv) && leftIndex == 2*index + 1
+//@     invariant forall k :: 0 <= k && k < index0 ==> perm[k] == k && pinv[k] == k
+//@     invariant forall j :: 1 <= j && j < N(heap) && index0 <= fdiv(j-1, 2) && fdiv(j-1, 2) != index ==> Le(heap, fdiv(j-1, 2), j)
+//@     invariant index > index0 ==> (2*index+1 < N(heap) ==> Le(heap, fdiv(index-1, 2), 2*index+1)) && (2*index+2 < N(heap) ==> Le(heap, fdiv(index-1, 2), 2*index+2))
+//@     decreases size - index
+
+//@ func Heap.bubbleDown
+//@   requires Shape(heap) && OrdFrom(heap, 1)
+//@   modifies elems(heap.list.elements)
+//@   ghostvar perm := idmap
+//@   ghostvar pinv := idmap
+//@   at after bubbleDownIndex#1: perm := res_perm
+//@   at after bubbleDownIndex#1: pinv := res_pinv
+//@   ghostresult perm mapint
+//@   ghostresult pinv mapint
+//@   ensures [C06] Shape(heap) && Config(heap) && OrdFrom(heap, 0) && Permuted(heap, perm, pinv)
+
+//@ func Heap.bubbleUp
+//@   requires Shape(heap) && N(heap) >= 1
+//@   requires forall j :: 1 <= j && j < N(heap) - 1 ==> Le(heap, fdiv(j-1, 2), j)
+//@   modifies elems(heap.list.elements)
+//@   ghostvar perm := idmap
+//@   ghostvar pinv := idmap
+//@   at after Swap#1: perm := swap(perm, arg1, arg2)
+//@   at after Swap#1: pinv := store(store(pinv, perm[arg1], arg1), perm[arg2], arg2)
+//@   ghostresult perm mapint
+//@   ghostresult pinv mapint
+//@   ensures [C06] Shape(heap) && Config(heap) && OrdFrom(heap, 0) && Permuted(heap, perm, pinv)
+//@   loop 1:
+//@     invariant Shape(heap) && Config(heap) && 0 <= index && index < N(heap) && Permuted(heap, perm, pinv) && (index > 0 ==> parentIndex == fdiv(index-1, 2))
+//@     invariant forall j :: 1 <= j && j < N(heap) && j != index ==> Le(heap, fdiv(j-1, 2), j)
+//@     invariant index > 0 ==> (2*index+1 < N(heap) ==> Le(heap, fdiv(index-1, 2), 2*index+1)) && (2*index+2 < N(heap) ==> Le(heap, fdiv(index-1, 2), 2*index+2))
+//@     decreases index
+
+//@ -- Push: the new content is (old content ++ values) rearranged by src
+//@ func Heap.Push
+//@   requires Inv(heap) && arraylist.Disjoint(heap.list, values)
+//@   modifies heap.list.elements, elems(heap.list.elements)
+//@   ghostvar src := idmap
+//@   ghostvar sinv := idmap
+//@   at after bubbleUp#1: src := res_perm
+//@   at after bubbleUp#1: sinv := res_pinv
+//@   at after bubbleDownIndex#1: src := maplam(\k. src[res_perm[k]])
+//@   at after bubbleDownIndex#1: sinv := maplam(\k. res_pinv[sinv[k]])
+//@   ghostresult src mapint
+//@   ghostresult sinv mapint
+//@   ensures [C06 C17] Inv(heap) && Config(heap) && N(heap) == old(N(heap)) + len(values)
+//@   ensures [C06] multiset: IsPerm(src, sinv, N(heap)) && (forall k :: 0 <= k && k < N(heap) ==> L(heap)[k] == (old(L(heap)) ++ seq(values))[src[k]])
+//@   ensures [C16] arraylist.Owned(heap.list)
+//@   loop 1:
+//@     invariant Shape(heap) && Config(heap) && 0 - 1 <= rangeindex && rangeindex < len(values) && arraylist.Owned(heap.list) && arraylist.Disjoint(heap.list, values)
+//@     invariant N(heap) == old(N(heap)) + rangeindex + 1 && len(values) != 1 && src == idmap && sinv == idmap
+//@     invariant forall k :: 0 <= k && k < old(N(heap)) ==> L(heap)[k] == old(L(heap))[k]
+//@     invariant forall k :: 0 <= k && k <= rangeindex ==> L(heap)[old(N(heap)) + k] == values[k]
+//@     decreases len(values) - rangeindex
+//@   loop 2:
+//@     invariant Shape(heap) && Config(heap) && 0 - 1 <= i && OrdFrom(heap, i + 1) && N(heap) == old(N(heap)) + len(values) && arraylist.Owned(heap.list)
+//@     invariant IsPerm(src, sinv, N(heap)) && (forall k :: 0 <= k && k < N(heap) ==> L(heap)[k] == (old(L(heap)) ++ seq(values))[src[k]])
+//@     decreases i + 1
+
+//@ -- Pop: the new content is the old content without its root, rearranged by src
+//@ func Heap.Pop
+//@   requires Inv(heap)
+//@   modifies heap.list.elements, elems(heap.list.elements)
+//@   assert entry: induction j :: j < N(heap) ==> Le(heap, 0, j)
+//@   ghostvar src := idmap
+//@   at after bubbleDown#1: src := maplam(\k. ite(res_perm[k] == 0, old(N(heap)) - 1, res_perm[k]))
+//@   ghostresult src mapint
+//@   ensures [C06 C17] Inv(heap) && Config(heap)
+//@   ensures [C06] empty: old(N(heap)) == 0 ==> !ok && value == zero(value) && N(heap) == 0
+//@   ensures [C06] nonempty: old(N(heap)) > 0 ==> ok && value == old(L(heap))[0] && N(heap) == old(N(heap)) - 1
+//@   ensures [C06] minimum: old(N(heap)) > 0 ==> (forall k :: 0 <= k && k < old(N(heap)) ==> heap.Comparator(value, old(L(heap))[k]) <= 0)
+//@   ensures [C06] multiset: (forall k :: 0 <= k && k < N(heap) ==> 1 <= src[k] && src[k] < old(N(heap)) && L(heap)[k] == old(L(heap))[src[k]])
+//@     && (forall a, b :: 0 <= a && a < b && b < N(heap) ==> src[a] != src[b])
+//@   ensures [C16] arraylist.Owned(heap.list)
+
+//@ func Heap.Peek
+//@   requires Inv(heap)
+//@   modifies nothing
+//@   assert entry: induction j :: j < N(heap) ==> Le(heap, 0, j)
+//@   ensures [C06 C17 C18] N(heap) == 0 ==> !ok && value == zero(value)
+//@   ensures [C06 C17 C18] N(heap) > 0 ==> ok && value == L(heap)[0] && (forall k :: 0 <= k && k < N(heap) ==> heap.Comparator(value, L(heap)[k]) <= 0)
+
+//@ func Heap.Empty
+//@   requires Inv(heap)
+//@   modifies nothing
+//@   ensures [C15 C17 C18] result == (N(heap) == 0)
+
+//@ func Heap.Size
+//@   requires Inv(heap)
+//@   modifies nothing
+//@   ensures [C06 C15 C17 C18] result == N(heap) && result >= 0
+
+//@ func Heap.Clear
+//@   requires Inv(heap)
+//@   modifies heap.list.elements, elems(heap.list.elements)
+//@   ensures [C06 C15 C17] Inv(heap) && Config(heap) && N(heap) == 0
+//@   ensures [C16] arraylist.Owned(heap.list)
+
+//@ func Heap.withinRange
+//@   inline
